@@ -209,3 +209,13 @@ Section RayModel.
              (prims : list Z) : S * Z * list S :=
     ray_result (fold_left (bvh_prim_step gd ngeom nflexgeom worldid enabled) prims racc0).
 End RayModel.
+
+(* ---------------------------------------------------------------- scene-BVH leaf layout (build / refit) *)
+(* bvh._compute_bvh_bounds (not translatable: matrix slice) writes the box of world `worldid`, enabled geom
+   `geom_local_id` to   lower_out[worldid * bvh_ngeom + geom_local_id]   where the kernel PARAMETER named
+   bvh_ngeom receives the per-world stride from the host (build_scene_bvh / refit_scene_bvh pass
+   total_bvh_size = rc.bvh_ngeom + rc.bvh_nflexgeom; checked on the source by bin/props/C35.py). *)
+Definition geom_leaf (stride worldid geom_local : Z) : Z := (worldid * stride + geom_local)%Z.
+(* bvh._compute_flex_bvh_bounds (translated, Gen/T_bvh.v): out_idx = worldid * total_bvh_size + bvh_ngeom + flexlocalid *)
+Definition flex_leaf (total ngeom worldid flexlocal : Z) : Z := (worldid * total + ngeom + flexlocal)%Z.
+
